@@ -412,7 +412,8 @@ def loop_trace_table(ctx, fn):
             tr = tuple((c_[0][0], c_[1]) for c_ in o.conds if isinstance(c_[0], tuple) and c_[0] and c_[0][0] in ("cond", "truthy", "block", "push", "pop"))
             after = o.refs.get(1)
             got.add((tr, _kt.term(o.ret), _kt.term(after[3][ci]) if after and after[0] == "e" else "Normal"))
-        # the language rule, two rounds deep (KIND cuts a loop after two visits of a block)
+        # the language rule, as many rounds deep as KIND follows a loop (it cuts after MAX_VISITS visits of a block: two in the
+        # quick tier, three in the thorough tier's second pass)
         want = set()
 
         def rounds(tr, state, depth):
@@ -430,7 +431,7 @@ def loop_trace_table(ctx, fn):
                         want.add((t4, "Ok(())", "Returning"))
                     elif stt == "Breaking":
                         want.add((t4, "Ok(())", "Normal"))
-                    elif depth < 1:
+                    elif depth < _kind.MAX_VISITS - 1:
                         rounds(t4, "Normal", depth + 1)
         rounds((), "Normal", 0)
         ok = got == want and not I_.incomplete
@@ -440,5 +441,5 @@ def loop_trace_table(ctx, fn):
             missing = sorted(want - got, key=str)[:1]
             why = "loop runner with INVERT=%s: %s%s" % (invert, ("a run the language does not have: %s; " % (extra[0],)) if extra else "", ("a run of the language that is missing: %s" % (missing[0],)) if missing else "")
         rep.ob("C04.R3", "loop-trace::INVERT=%s::%s" % (invert, fn.path), ok, why, fn.loc(),
-               how="%d runs over two rounds: condition before every round, body iff INVERT^truthy, Normal/Continuing go on (state Normal), Breaking leaves (state Normal), Returning leaves (state kept), errors end the loop" % len(want))
+               how="%d runs over %d rounds: condition before every round, body iff INVERT^truthy, Normal/Continuing go on (state Normal), Breaking leaves (state Normal), Returning leaves (state kept), errors end the loop" % (len(want), _kind.MAX_VISITS))
     rep.exhaustive["C04.R3 loop runs over two rounds x INVERT"] = True
